@@ -7,4 +7,5 @@ MODULES = [
     'contracts.c_input',
     'contracts.c_errors',
     'contracts.c_expr',
+    'contracts.c_codec',
 ]
